@@ -1,5 +1,5 @@
 """C08  Warn mode reports problems as warnings and keeps decoding (fault enumeration; tiling + lenient reference)."""
-from .. import cases, faultspace, impl, loader, oracle
+from .. import bscope, cases, faultspace, impl, loader, oracle
 from ..ref import tiling
 from ..ref import values as V
 from ..ref.decode import decode as ref_decode
@@ -13,6 +13,10 @@ ASSUMPTIONS = [
 ]
 
 
+B_STRICT = ()
+B_WARN = ('C08',)
+
+
 def units(tier, seed):
     us = cases.fault_units(tier, seed, with_prims=True)
     for u in us:
@@ -20,6 +24,7 @@ def units(tier, seed):
         if tier == "quick" and u["kind"] != "struct":
             u["value_valid"] = False
             u["subst_alphabet"] = (0x00, 0xFF)
+    us += bscope.units(tier, seed)
     return us
 
 
@@ -78,6 +83,8 @@ def check_input(acc, root, m, cc, enc, d):
 
 
 def run_unit(unit):
+    if unit["kind"] == "bscope":
+        return bscope.run_b_unit(unit, strict_own=B_STRICT, warn_props=B_WARN)
     acc = Acc()
     loader.load()
     fams = ["size", "value", "length", "subst"]
@@ -115,6 +122,8 @@ def finish(acc, tier, seed):
 
 
 def replay(case):
+    if case.get("harness") == "bytestep":
+        return bscope.replay(case, strict_own=B_STRICT, warn_props=B_WARN)
     acc = Acc()
     loader.load()
     check_input(acc, case["root"], bytes.fromhex(case["input"]), case.get("cc"), case.get("enc"), lambda: case)
